@@ -417,6 +417,9 @@ func traceGolden(o opts) error {
 		emit("golden\tname=%s\tstate=%s\twant=%s\tnext=%s\twantnext=%s\tpure=%s", e.Name(), state, meta.State, next, strings.Join(wparts, ","), pure)
 		os.RemoveAll(work)
 	}
+	if err := bigDB(o); err != nil {
+		return err
+	}
 	return nil
 }
 
@@ -497,4 +500,60 @@ func mkFixtures(o opts) error {
 		d.Put(su, "é/π/世", []byte("v2"))
 		d.Activate(su, "é/π/世", api.SecretVersion(2))
 	})
+}
+
+
+// bigDB: a database that grows to several megabytes (a handful of 1 MiB secrets and many
+// versions of one); after every put a copy is reopened and every value compared by digest.
+//
+//	bigdb step=<k> size=<file bytes> reopen=<ok|ERR:hex> match=<0|1>
+func bigDB(o opts) error {
+	work := filepath.Join(o.dir, "bigdb")
+	os.MkdirAll(work, 0700)
+	defer os.RemoveAll(work)
+	kek, err := newKEK()
+	if err != nil {
+		return err
+	}
+	p := filepath.Join(work, "setec.db")
+	d, err := db.Open(p, kek, audit.New(&sink{observer: true}))
+	if err != nil {
+		return err
+	}
+	su := superuser()
+	r := rng(o.seed, 4242)
+	want := map[string]string{} // name/version -> digest
+	for k := 0; k < 9; k++ {
+		n := fmt.Sprintf("big/%d", k%7)
+		v := make([]byte, 1<<20)
+		r.Read(v)
+		ver, err := d.Put(su, n, v)
+		if err != nil {
+			emit("bigdb\tstep=%d\tsize=0\treopen=ERR:%s\tmatch=0", k, hx("put: "+err.Error()))
+			return nil
+		}
+		want[fmt.Sprintf("%s/%d", n, ver)] = digest(v)
+		fi, _ := os.Stat(p)
+		cp := filepath.Join(work, "copy.db")
+		bs, _ := os.ReadFile(p)
+		os.WriteFile(cp, bs, 0600)
+		reopen, match := "ok", "1"
+		d2, err := db.Open(cp, kek, audit.New(&sink{observer: true}))
+		if err != nil {
+			reopen, match = "ERR:"+hx(err.Error()), "0"
+		} else {
+			for key, dg := range want {
+				i := strings.LastIndex(key, "/")
+				var vv uint32
+				fmt.Sscanf(key[i+1:], "%d", &vv)
+				sv, err := d2.GetVersion(su, key[:i], api.SecretVersion(vv))
+				if err != nil || digest(sv.Value) != dg {
+					match = "0"
+				}
+			}
+		}
+		os.Remove(cp)
+		emit("bigdb\tstep=%d\tsize=%d\treopen=%s\tmatch=%s", k, fi.Size(), reopen, match)
+	}
+	return nil
 }
